@@ -28,7 +28,7 @@ Matches(e, x) ==
         = { <<x.out[n].i, x.out[n].b, x.out[n].pre>> : n \in { m \in DOMAIN x.out : x.out[m].t = "C" } }
 
 IsEvent(name) == l <= Len(TraceLog) /\ TraceLog[l].ev = name /\ l' = l + 1
-Frame == UNCHANGED <<dl, dln, df, ownv, flags, nmsg, nlost, hist>>
+Frame == UNCHANGED <<dl, dln, df, ownv, flags, nmsg, nlost, justc, hist>>
 Take(e, x) == Matches(e, x) /\ v' = [x EXCEPT !.out = <<>>]
 
 FreshV == [i |-> 1, step |-> 0, pc |-> FALSE, cd |-> FALSE, cm |-> FALSE, over |-> {}, wr |-> [ii \in 1..MaxI |-> EmptyWrapper],
